@@ -33,9 +33,17 @@ def main(argv=None):
             print(f"ANALYSIS-ERROR property={prop} no checker implemented")
             return 2
         seed = int(os.environ.get("VERIF_SEED", "0") or 0)
-        return report.run_check(prop, mod.run, args.tier, args.repo, seed=seed, replay=args.replay,
-                                level=_level(prop, mod),
-                                checker_cmd=f"python3-vt -m pdxsa check {prop} --tier {args.tier}")
+        rc = report.run_check(prop, mod.run, args.tier, args.repo, seed=seed, replay=args.replay,
+                              level=_level(prop, mod),
+                              checker_cmd=f"python3-vt -m pdxsa check {prop} --tier {args.tier}")
+        if args.tier == "thorough" and not args.replay and os.path.abspath(args.repo) == "/repo" and not os.environ.get("PDXSA_NO_SELFTEST"):
+            # machinery self-test for this property (mutants must be reported, benign refactors must stay silent);
+            # informational: it never changes the verdict about /repo
+            from . import selftest
+            summary = selftest.run_for_property(prop, args.repo)
+            print("SELFTEST " + str(summary))
+            report.attach_to_evidence(prop, "selftest", summary)
+        return rc
     if args.cmd == "selftest":
         from . import selftest
         return selftest.main(args)
